@@ -26,7 +26,7 @@ MARKER_IMPUTERS = ('ConstraintViolationImputer', 'LazyConstraintViolationImputer
 
 def strategy(tier):
     return st.fixed_dictionaries({'ms': st.one_of(matspec.mat_spec(max_side=3, max_patterns=4),
-                                                  matspec.pattern_family_spec()), 'vseed': st.integers(0, 2**31)})
+                                                  matspec.pattern_family_spec(), matspec.pattern_family_spec()), 'vseed': st.integers(0, 2**31)})
 
 
 def registry():
